@@ -3,6 +3,7 @@ RMW (one atomic read-modify-write decides the last reference), LAST-REF (free on
 REF-PAIR (every write of the held pointer is paired with the matching count operation), POOL (reset before recycle, slab lists under the pool mutex,
 slab deletion and manager assignment outside it).  Resolved on forced instantiations (engine/instantiate.cpp)."""
 import re
+from msa import ip as IP
 from msa import pair as P
 from msa import ast as A
 from msa import cfg as C
@@ -95,27 +96,35 @@ def run(res, tier):
     # ------------------------------------------------------------------------------------------- LAST-REF
     res.rule('LAST-REF', 'ConstRef::UnrefItemAux frees (delete / RecycleObject) only on the true edge of DecrementRefCount(), when counting and when deletion is allowed, and at most once per path', floor=2)
     f = one(fx, CR + '::UnrefItemAux', INST_R)
-    frees = [n for n in f.walk() if n['k'] == 'CXXDeleteExpr'] + [c for c in f.walk() if c.is_call() and (c.get('q') or '').endswith('::RecycleObject')]
-    if len(frees) != 2:
-        raise AnalysisBroken('UnrefItemAux: expected delete + RecycleObject, found %d free sites' % len(frees))
-    for fr in frees:
-        gs = [(f.nodes[c], t) for (c, t) in C.guards_of_block(f, P.pos_of(f, fr)[0])]
+    CRS = r'^muscle::ConstRef::'
+    is_free = lambda n: n['k'] == 'CXXDeleteExpr' or (n.is_call() and (n.get('q') or '').endswith('::RecycleObject'))
+    # the two free sites sit in UnrefItemAux itself or in a private helper it calls (msa/ip.py)
+    tops = IP.may_sites(fx, f, is_free, CRS)
+    frees_ip = [leaf for (_, ls) in tops for leaf in ls]
+    if len(frees_ip) != 2:
+        raise AnalysisBroken('UnrefItemAux: expected delete + RecycleObject, found %d free sites' % len(frees_ip))
+    for (g_, fr) in frees_ip:
+        gs = IP.atoms_at_ip(fx, f, g_, fr, CRS)
         dec = any(cn.is_call() and (cn.get('q') or '').endswith('::DecrementRefCount') and t for (cn, t) in gs)
         counting = False
         for (cn, t) in gs:
             n = A.strip_casts(cn)
             if t and n['k'] == 'DeclRefExpr' and 'd' in n:
-                for v in f.walk():
+                for v in n.func.walk():
                     if v['k'] == 'VarDecl' and v['d'] == n['d'] and v['ch'] and any((x.get('q') or '').endswith('::IsRefCounting') for x in v['ch'][0].walk() if x.is_call()):
                         counting = True
             if t and n.is_call() and (n.get('q') or '').endswith('::IsRefCounting'):
                 counting = True
         allow = any(A.strip_casts(cn).get('d') == f.params[1]['d'] and t for (cn, t) in gs)
-        res.ob('LAST-REF', f.where(fr), '%s in UnrefItemAux is behind DecrementRefCount() == true, IsRefCounting() and allowDelete' % ('delete' if fr['k'] == 'CXXDeleteExpr' else 'RecycleObject'),
+        res.ob('LAST-REF', g_.where(fr), '%s in UnrefItemAux is behind DecrementRefCount() == true, IsRefCounting() and allowDelete' % ('delete' if fr['k'] == 'CXXDeleteExpr' else 'RecycleObject'),
                dec and counting and allow, function=f.q, key='LAST-REF|%s|%s' % (f.q, 'delete' if fr['k'] == 'CXXDeleteExpr' else 'recycle'),
                message='UnrefItemAux can free the object %s: it is destroyed while other references exist (or by a non-counting reference)' %
                        ', '.join(w for (w, b) in (('without DecrementRefCount() having returned true', dec), ('without IsRefCounting()', counting), ('although allowDelete is false', allow)) if not b))
-    once = not C.can_reach(f, P.pos_of(f, frees[0]), set([P.pos_of(f, frees[1])])) and not C.can_reach(f, P.pos_of(f, frees[1]), set([P.pos_of(f, frees[0])]))
+
+    def excl(h, a, b):
+        return not C.can_reach(h, P.pos_of(h, a), set([P.pos_of(h, b)])) and not C.can_reach(h, P.pos_of(h, b), set([P.pos_of(h, a)]))
+    (g0, f0), (g1, f1) = frees_ip
+    once = (g0 is not g1 or excl(g0, f0, f1)) and all(excl(f, tops[i][0], tops[j][0]) for i in range(len(tops)) for j in range(i + 1, len(tops)))
     ndec = sum(1 for c in f.walk() if c.is_call() and (c.get('q') or '').endswith('::DecrementRefCount'))
     res.ob('LAST-REF', f.where(), 'UnrefItemAux decrements once and the two free sites exclude each other', once and ndec == 1, function=f.q, key='LAST-REF|%s|once' % f.q,
            message='UnrefItemAux can decrement twice or both delete and recycle on one path')
